@@ -12,7 +12,7 @@ REQ = "(:requirements :typing :negative-preconditions :equality :numeric-fluents
 STRIPS = (f"""(define (domain s1)
 {REQ}
 (:types t1 - object t2 - t1)
-(:predicates (p ?a - t1) (q ?a - t1 ?b - t1) (r))
+(:predicates (p ?a - t1) (q ?a - t1 ?b - t1) (r) (z3 ?a - t2 ?b - t2 ?c - t1))
 (:action mv :parameters (?x - t1 ?y - t1)
   :precondition (and (p ?x) (not (p ?y)) (not (= ?x ?y)))
   :effect (and (not (p ?x)) (p ?y) (q ?x ?y)))
@@ -22,7 +22,7 @@ STRIPS = (f"""(define (domain s1)
 (:action clr :parameters (?x - t1) :precondition (and (p ?x)) :effect (and (not (p ?x)))))
 """, """(define (problem s1p) (:domain s1)
 (:objects a - t1 b - t2)
-(:init (p a))
+(:init (p a) (z3 b b a))
 (:goal (and (p b))))
 """)
 
@@ -61,7 +61,7 @@ COND = (f"""(define (domain c1)
                (forall (?z - t2) (when (q ?x ?z) (and (not (q ?x ?z)) (p ?z))))
                (when (p k) (and (r) (increase (cnt) 1)))))
 (:action link :parameters (?x - t1 ?y - t1)
-  :precondition (and (not (= ?x ?y)) (or (p ?x) (r)))
+  :precondition (and (or (not (= ?x ?y)) (m ?x)) (or (p ?x) (r) (= ?y k)))
   :effect (and (q ?x ?y) (when (not (r)) (m ?y))))
 (:action mark :parameters (?o - object) :precondition (and (not (m ?o))) :effect (and (m ?o) (p k)))
 (:action bump :parameters () :precondition (and) :effect (and (increase (aux) (+ (cnt) 1))))
